@@ -21,6 +21,7 @@ ASSUMPTIONS = ["scipy.fftpack dst/idst are used through the contract of the unno
 def make(kind):
     if kind == 'Continuous1D': return Continuous1D(4)
     if kind == 'Continuous2D': return Continuous2D((2, 3))
+    if kind == 'Continuous2D:numpy_integer_shape': return Continuous2D((np.int64(2), np.int64(3)))
     if kind.startswith('Continuous2D:'):                                # grids with a one-node axis
         a, b = kind.split(':')[1].split('x'); return Continuous2D((int(a), int(b)))
     if kind.startswith('Image2D:C:'):
@@ -30,6 +31,7 @@ def make(kind):
     if kind == 'Image2D:C': return Image2D((2, 3), order='C')
     if kind == 'Image2D:F': return Image2D((2, 3), order='F')
     if kind == 'Image2D:visual_only': return Image2D((2, 3), visual_only=True)
+    if kind == 'Image2D:numpy_integer_shape': return Image2D((np.int64(2), np.int64(3)))                 # e.g. a shape taken from another array's .shape arithmetic
     if kind == 'Discrete': return Discrete(['a', 'b', 'c'])
     if kind == 'Mapped': return MappedGeometry(Continuous1D(3), map=lambda v: 2 * v + 1, imap=lambda f: (f - 1) / 2)
     if kind == 'Mapped:KL':
@@ -195,6 +197,15 @@ def samples_conversions(c, kind, N=3):
     c.holds('funvals_flags', (not f.is_par) and f.geometry is g)
     for k in range(N):
         c.eq(f'funvals_sample[{k}]_is_par2fun_of_sample', f.samples[..., k] if isinstance(f.samples, np.ndarray) else f.samples[k], g.par2fun(A[:, k]))
+    fs = tuple(g.fun_shape) if isinstance(g.fun_shape, tuple) else None
+    if fs is not None and all(isinstance(i, (int, np.integer)) for i in fs):
+        # array-valued function values are stored as ONE array with the sample axis last, so that statistics reduce over the samples
+        c.holds('funvals_are_stored_as_one_array_with_the_sample_axis_last', isinstance(f.samples, np.ndarray) and tuple(f.samples.shape) == tuple(int(i) for i in fs) + (N,),
+                note=f"{type(f.samples).__name__} {getattr(f.samples, 'shape', None)}")
+        c.holds('funvals_vector_flag_matches_the_function_shape', f.is_vec == (len(fs) == 1), note=str(f.is_vec))
+        if not c.sym:
+            ref = np.mean(np.stack([np.asarray(g.par2fun(A[:, k]), dtype=float) for k in range(N)], axis=-1), axis=-1)
+            c.eq('mean_of_funvals_is_the_per_coordinate_mean_over_the_samples', np.asarray(f.mean(), dtype=float), ref, tol=1e-12)
     back = f.parameters
     c.holds('parameters_flags', back.is_par and back.is_vec and back.geometry is g)
     c.eq('parameters_of_funvals_is_lossless', back.samples, A)
@@ -222,11 +233,22 @@ def cuqiarray_conversions(c, kind):
     c.eq('funvals_of_funvals_is_identity', np.asarray(f.funvals), np.asarray(f))
 
 
+def maps_not_offered(c):
+    """'every geometry that OFFERS a function-to-parameter map': where none is offered the call is refused - a mapped geometry without inverse map, a
+    visual-only image (identity in both directions), the abstract base class - instead of returning something that is not the parameters"""
+    g = MappedGeometry(Continuous1D(3), map=lambda v: 2 * v + 1)
+    f = g.par2fun(c.vec('p', 3))
+    c.expect_raise('mapped_geometry_without_inverse_map_refuses_fun2par', lambda: g.fun2par(f))
+    from cuqi.samples import Samples
+    S = Samples(c.vec('s', 6).reshape(3, 2), g)
+    c.expect_raise('function_value_samples_of_it_cannot_be_converted_back', lambda: S.funvals.parameters)
+
+
 def jobs(tier):
     J = []
     q = tier == 'quick'
     F = lambda *n: [f"{G}:{x}" for x in n]
-    kinds = ['Continuous1D', 'Continuous2D', 'Image2D:C', 'Image2D:F', 'Image2D:visual_only', 'Discrete', 'Mapped', 'Mapped:Image2D',
+    kinds = ['Continuous1D', 'Continuous2D', 'Image2D:C', 'Image2D:F', 'Image2D:visual_only', 'Image2D:numpy_integer_shape', 'Continuous2D:numpy_integer_shape', 'Discrete', 'Mapped', 'Mapped:Image2D',
              'Step:mean:5:2', 'Step:max:6:3', 'Step:min:4:4', 'Default1D', 'Default2D']
     fn = {'Continuous1D': F('Continuous.fun2par', 'Geometry.par2fun'), 'Continuous2D': F('Continuous2D.par2fun', 'Continuous2D.fun2par'),
           'Image2D': F('Image2D.par2fun', 'Image2D.fun2par', 'Image2D._vector_to_image'), 'Discrete': F('Discrete.fun2par'),
@@ -258,4 +280,5 @@ def jobs(tier):
     for kind in ('KL:6:3', 'KL:8:8', 'Mapped:KL') + (() if q else ('KL:16:5',)):
         for k in (0, 2):
             J.append(Job(f'{kind}:roundtrip_and_columnwise:batch={k}', lambda c, kind=kind, k=k: roundtrip(c, kind, k), 'Pbox', fn['KL'], rtol=1e-6, atol=1e-9, timeout=900))
+    J.append(Job('Mapped:no_inverse_map:fun2par_refused', maps_not_offered, 'Pbox', fn['Mapped'] + ['cuqi.samples._samples:Samples.parameters']))
     return J
